@@ -1,4 +1,5 @@
 import FitProps.Go2LeanBasetype
+import FitProps.Go2LeanProtoMarshal
 /-!
 # C06 — tie of the base-type facts to the source by translation
 
@@ -41,5 +42,19 @@ theorem C06_go2lean_consts :
 theorem C06_go2lean_spec_field : (fitBaseTypes.map (fun p => p.1 &&& Go.basetype.BaseTypeNumMask)) = List.range 17 ∧
     ∀ p ∈ fitBaseTypes, ((p.1 &&& Go.basetype.EndianAbilityMask) == Go.basetype.EndianAbilityMask) = decide (p.2.1 > 1) :=
   bt_spec_field
+
+/-! the clamping of `typedef.Bool` (anything above 1 is the invalid value 255): proto/value.go `Bool`, proto/value_marshal.go
+case `TypeBool`, proto/value_unmarshal.go on a bool array (since /repo 5da5106), translated as blocks of unit `protomarshal`.
+PROPERTY THEOREMS (audited by ./check): C06_go2lean_bool_clamp, C06_go2lean_bool_marshal, C06_go2lean_bool_unmarshal -/
+
+theorem C06_go2lean_bool_clamp (v : Nat) :
+    mkBool v = .bool (Go.protomarshal.Bool_clamp v).num ∧ (Go.protomarshal.Bool_clamp v).num = clampBool v := pm_bool_clamp v
+
+theorem C06_go2lean_bool_marshal (b : List Nat) (val : Nat) (hv : val < 256) :
+    (Go.protomarshal.Value_MarshalAppend_bool b val).ret = some (b ++ [boolByte val]) := pm_bool_marshal b val hv
+
+theorem C06_go2lean_bool_unmarshal (bs vals : List Nat) (i : Nat) (hi : i < bs.length) :
+    Go.protomarshal.UnmarshalValue_boolElem bs (i : Int) vals =
+      some { vals := vals ++ [clampBool bs[i]], v := clampBool bs[i] } := pm_bool_unmarshal bs vals i hi
 
 end Fit.C06
